@@ -79,6 +79,9 @@ func c02Body() func(h []dsim.Rec) {
 	for k := 0; k < nframes; k++ {
 		v2 := dsim.Choose(2) == 0
 		f, d, vals := genDialectFrame(v2)
+		if v2 && dsim.Choose(3) == 0 {
+			signValid(f, d, genKey(), genByte(), genUint(48)) // a signature block follows the checksum
+		}
 		good := f.Encode()
 		dsim.Record("frame", fmt.Sprintf("%x", good), nil, int64(len(good)))
 
@@ -98,6 +101,23 @@ func c02Body() func(h []dsim.Rec) {
 		if got := d.Canon(hd.ToValues(res[0].fr.GetMessage()), v2); !ref.EqualValues(got, vals) {
 			dsim.Failf("gate-complete", "%s decoded to %v, sent %v (payload %s)", d.Name, got, vals, hexs(f.Payload))
 			return nil
+		}
+
+		// (a') ... however the link cuts it in two, and with another frame following
+		if len(good) <= 80 || dsim.Choose(4) == 0 {
+			f2, d2, _ := genDialectFrame(v2)
+			two := append(append([]byte(nil), good...), f2.Encode()...)
+			for cut := 1; cut < len(two); cut++ {
+				res, ok := readAllCut("C02", two, 3, cut, len(two), io.EOF, cfg)
+				if !ok {
+					return nil
+				}
+				if len(res) != 3 || res[0].kind != 0 || res[1].kind != 0 {
+					dsim.Failf("gate-complete", "two well-formed frames (%s, %s) cut at offset %d of the stream were not both delivered: %v; bytes %s", d.Name, d2.Name, cut, describeAll(res), hexs(two))
+					return nil
+				}
+			}
+			count("cov:all-two-way-cuts")
 		}
 
 		// (b) every single-bit flip of the frame
